@@ -322,6 +322,12 @@ def parse_module(text):
     cx = Ctx()
     lines = text.split('\n')
     i = 0
+    # functions that cannot propagate an exception (nounwind): no "exception pending" check after calls to them
+    nounwind_groups = set(m.group(1) for m in re.finditer(r'^attributes (#\d+) = \{[^}]*\bnounwind\b', text, re.M))
+    cx.nounwind = set()
+    for m in re.finditer(r'^(?:define|declare)[^@]*@("[^"]*"|[-a-zA-Z$._0-9]+)\(.*?\)[^#\n]*((?:#\d+ ?)*)', text, re.M):
+        if any(g in nounwind_groups for g in m.group(2).split()):
+            cx.nounwind.add(m.group(1).strip('"'))
     # pass 1: struct types (so that later parsing can resolve field lists)
     for ln in lines:
         m = re.match(r'^(%(?:"[^"]*"|[-a-zA-Z$._0-9]+)) = type (.*)$', ln)
@@ -710,7 +716,7 @@ def translate_function(cx, f, out, contracts):
                 ok, lp = mm.group(1).strip('"'), mm.group(2).strip('"')
                 stmts.append(('br2', 'cntgs_exc', lp, ok))
             elif not callee_raw.startswith('llvm.'):
-                if not NOEXC: stmts.append('if (cntgs_exc) return %s;' % retz)
+                if not NOEXC and (indirect or callee_raw not in cx.nounwind): stmts.append('if (cntgs_exc) return %s;' % retz)
         elif op == 'landingpad':
             t = parse_type(p)
             vt[dst] = t
